@@ -15,7 +15,7 @@ let int_list s = List.map int_of_string (split_ne ',' s)
 let parse_op (o : string) : wh_op =
   let arg () = z_of_string (String.sub o 1 (String.length o - 1)) in
   match o.[0] with
-  | 'N' -> WNew (arg ())
+  | 'N' -> WhNew (arg ())
   | 'A' -> WAfter (arg ())
   | 'R' -> if String.length o = 1 then WReset None else WReset (Some (arg ()))
   | _ -> failwith ("bad op " ^ o)
@@ -168,7 +168,7 @@ let () =
         (match wh_bucket_index step nn d with None -> "fetch=panic" | Some _ -> "fetch=ok")
       else begin
         let pre = int_of_string (get m "pre") in
-        let s = run_ticker WFixed (wh_init step nn (nat_of_int pre) [[WNew d]]) in
+        let s = run_ticker WFixed (wh_init step nn (nat_of_int pre) [[WhNew d]]) in
         let rec req s k = (* run the request alone *)
           if k = 0 then (s, None) else
           let (s1, ev) = wh_step WFixed s (S O) in
